@@ -78,10 +78,30 @@ func (pwc passthroughWriteCloser) Close() error {
 
 const unsupportedContentEncoding = "Unsupported content encoding, hot reload script not inserted."
 
+// hasDocument reports whether the response carries a whole document that the reload script can be added to:
+// the answer to a HEAD request, 1xx, 204 and 304 responses have no body, a 206 response holds a part of one.
+func hasDocument(r *http.Response) bool {
+	if r.Request != nil && r.Request.Method == http.MethodHead {
+		return false
+	}
+	switch {
+	case r.StatusCode >= 100 && r.StatusCode < 200,
+		r.StatusCode == http.StatusNoContent,
+		r.StatusCode == http.StatusNotModified,
+		r.StatusCode == http.StatusPartialContent:
+		return false
+	}
+	return true
+}
+
 func (h *Handler) modifyResponse(r *http.Response) error {
 	log := h.log.With(slog.String("url", r.Request.URL.String()))
 	if r.Header.Get("templ-skip-modify") == "true" {
 		log.Debug("Skipping response modification because templ-skip-modify header is set")
+		return nil
+	}
+	if !hasDocument(r) {
+		log.Debug("Skipping response modification because the response carries no complete document", slog.Int("status", r.StatusCode))
 		return nil
 	}
 	if contentType := r.Header.Get("Content-Type"); !strings.HasPrefix(contentType, "text/html") {
